@@ -20,7 +20,7 @@ use crate::app::{
     HeaderParseError, ObjectParseError, RequestValidationError, ResponseValidationError,
 };
 use crate::decode::AppDecodeLevel;
-use crate::master::{CommandBuilder, CommandSupport, ReadHeader, ReadRequest};
+use crate::master::{CommandBuilder, CommandSupport, DeadBandHeader, ReadHeader, ReadRequest};
 
 #[path = "parse_probe_gen.rs"]
 mod gen;
@@ -372,6 +372,8 @@ pub enum BuildHdr {
     Commands(u8, u8, bool, Vec<(u16, Vec<u8>)>),
     /// `write_count_of_one` of a g50v1 / g50v3 (time sync objects)
     TimeOne(u8, u8, Vec<u8>),
+    /// one `DeadBandHeader::group34_var<v>_u8|u16(items)` through `WriteDeadBandsTask::write` (possibly no item)
+    DeadBands(u8, bool, Vec<(u16, Vec<u8>)>),
 }
 
 fn read_fixed<T: FixedSize>(b: &[u8]) -> Option<T> {
@@ -407,7 +409,9 @@ where
 /// Ok(bytes) | Err("badwrite") | Err("badspec"); a panic is caught by the caller.
 pub fn build_request(ctrl: u8, func: u8, cap: usize, hdrs: &[BuildHdr]) -> Result<Vec<u8>, String> {
     let function = FunctionCode::from(func).ok_or("badspec")?;
-    let mut buf = vec![0u8; cap];
+    // the transmit buffer of a task is re-used without being cleared: every octet of what is sent has to be
+    // written, none may be left as it was
+    let mut buf = vec![0xA5u8; cap];
     let mut cursor = scursor::WriteCursor::new(&mut buf);
     let mut writer =
         crate::app::format::write::start_request(ControlField::from(ctrl), function, &mut cursor)
@@ -452,6 +456,24 @@ pub fn build_request(ctrl: u8, func: u8, cap: usize, hdrs: &[BuildHdr]) -> Resul
                         return Err("badspec".to_string());
                     }
                     b.build().write(&mut writer)
+                }
+                BuildHdr::DeadBands(v, wide, items) => {
+                    let le2 = |b: &[u8]| u16::from_le_bytes([b[0], b[1]]);
+                    let le4 = |b: &[u8]| u32::from_le_bytes([b[0], b[1], b[2], b[3]]);
+                    let want = if *v == 1 { 2 } else { 4 };
+                    if items.iter().any(|(_, b)| b.len() != want) {
+                        return Err("badspec".to_string());
+                    }
+                    let h = match (*v, *wide) {
+                        (1, false) => DeadBandHeader::group34_var1_u8(items.iter().map(|(i, b)| (*i as u8, le2(b))).collect()),
+                        (1, true) => DeadBandHeader::group34_var1_u16(items.iter().map(|(i, b)| (*i, le2(b))).collect()),
+                        (2, false) => DeadBandHeader::group34_var2_u8(items.iter().map(|(i, b)| (*i as u8, le4(b))).collect()),
+                        (2, true) => DeadBandHeader::group34_var2_u16(items.iter().map(|(i, b)| (*i, le4(b))).collect()),
+                        (3, false) => DeadBandHeader::group34_var3_u8(items.iter().map(|(i, b)| (*i as u8, f32::from_bits(le4(b)))).collect()),
+                        (3, true) => DeadBandHeader::group34_var3_u16(items.iter().map(|(i, b)| (*i, f32::from_bits(le4(b)))).collect()),
+                        _ => return Err("badspec".to_string()),
+                    };
+                    crate::master::tasks::deadbands::WriteDeadBandsTask::new(vec![h], crate::master::promise::Promise::null()).write(&mut writer)
                 }
                 BuildHdr::TimeOne(g, v, bytes) => match (*g, *v) {
                     (50, 1) => writer
